@@ -8,6 +8,8 @@ oracle_c05 — line protocol (keys `k<n>`, values are naturals, clock in unix mi
   `get <k> <remove:0|1> <updateTTL|->`                    → `val:<v>` | `notfound`
   `del <k>` | `clear`                                     → `ok`
   `tick <ms>`                                             → `ok`
+  `fset <k> <v>` | `fget <k>`   (modes rds, both) a key of ANOTHER cache (other prefix, no expiry) on the same redis:
+                   → `ok` | `val:<v>` | `notfound`; nothing this cache does (Clear included) touches it
   `race <k> <n>`   n concurrent remove-after-get readers of one key → `wins:<0|1>` (every schedule is a sequence
                    of critical sections, so at most the first reader in lock order succeeds)
 In mode `both` a result is `<mem> <rds>`. The configuration is the regenerated `Nv.Gen.C05.cfg`.
@@ -21,6 +23,7 @@ structure OSt where
   mode : Mode
   sys : Sys
   started : Bool
+  foreign : List (Nat × Nat) := []
 
 def parseKey (s : String) : Option Nat :=
   if s.startsWith "k" then (s.drop 1).toString.toNat? else none
@@ -65,9 +68,22 @@ def step (s : OSt) (line : String) : OSt × String :=
     let mode : Option Mode := if m == "mem" then some .mem else if m == "rds" then some .rds
       else if m == "both" then some .both else none
     match mode, size.toNat?, dttl.toInt?, clock.toNat? with
-    | some mode, some size, some dttl, some clock => (⟨mode, Sys.new clock size dttl, true⟩, "ok")
+    | some mode, some size, some dttl, some clock => (⟨mode, Sys.new clock size dttl, true, []⟩, "ok")
     | _, _, _, _ => ({ s with started := false }, "bad-op")
   | "new" :: _ => ({ s with started := false }, "bad-op")
+  | ["fset", k, v] =>
+    if !s.started || s.mode == .mem then (s, "bad-op") else
+    match parseKey k, v.toNat? with
+    | some k, some v => ({ s with foreign := (k, v) :: s.foreign.filter (fun e => e.1 != k) }, "ok")
+    | _, _ => (s, "bad-op")
+  | ["fget", k] =>
+    if !s.started || s.mode == .mem then (s, "bad-op") else
+    match parseKey k with
+    | some k =>
+      match s.foreign.find? (fun e => e.1 == k) with
+      | some e => (s, s!"val:{e.2}")
+      | none => (s, "notfound")
+    | none => (s, "bad-op")
   | ["race", k, n] =>
     if !s.started then (s, "bad-op") else
     match parseKey k, n.toNat? with
@@ -92,4 +108,4 @@ def step (s : OSt) (line : String) : OSt × String :=
       ({ s with sys := r.1 }, render s.mode r.2)
     | none => (s, "bad-op")
 
-def main : IO Unit := oracleMain step ⟨.mem, Sys.new 0 0 0, false⟩
+def main : IO Unit := oracleMain step ⟨.mem, Sys.new 0 0 0, false, []⟩
